@@ -51,6 +51,8 @@ type Options struct {
 	// handleEvents: paused)
 	MaxInMem uint64
 	Pad      int
+	// MuteTransferTarget: a third of the partitions silence the target of the latest leader transfer
+	MuteTransferTarget bool
 }
 
 type flight struct {
@@ -683,6 +685,20 @@ func (s *Sim) restart(r *replica) {
 
 func (s *Sim) actPartition() {
 	ids := append([]uint64(nil), s.order...)
+	if s.opt.MuteTransferTarget && s.lastTransferTarget != 0 && s.rng.Intn(3) == 0 {
+		// the target of the latest leadership transfer hears everything and is heard by nobody: it
+		// campaigns (TimeoutNow) or wins a PreVote round, its vote requests are lost, the leader keeps
+		// its quorum - a replica that is ahead in term rejoins when the partition ends
+		t := s.lastTransferTarget
+		for _, b := range ids {
+			if b != t {
+				s.blocked[[2]uint64{t, b}] = true
+			}
+		}
+		s.mon.count("partitions_transfer_target_muted", 1)
+		s.tr("mute transfer target %d", t)
+		return
+	}
 	pick := s.rng.Intn(4)
 	if pick == 3 {
 		// the present leader keeps only the members that do not count for quorums (non-voting
